@@ -557,13 +557,20 @@ class C14(Base):
         if rng.random() < 0.3:
             s = max(1, rng.choice((N - 2, N - 1, N, N + 2)))
             s = min(s, self.SMAX[tier] + 6)
-        traj = rng.choice(("maximum", "revolve"))
+        trajs = [rng.choice(("maximum", "revolve"))]
+        if rng.random() < 0.5:
+            # both trajectories in one world (the checker groups by
+            # trajectory); construction order shuffled
+            trajs = ["maximum", "revolve"]
         slots = []
-        for r in range(0, s + 1):
-            slots.append(({"cls": "Multistage", "N": N,
-                           "p": {"r": r, "d": s - r, "traj": traj}}, 1,
-                          "every"))
-        return Plan(slots)
+        for traj in trajs:
+            for r in range(0, s + 1):
+                slots.append(({"cls": "Multistage", "N": N,
+                               "p": {"r": r, "d": s - r, "traj": traj}}, 1,
+                              "every"))
+        if len(trajs) == 2:
+            rng.shuffle(slots)
+        return Plan(slots, interleave=len(trajs) == 2 and rng.random() < 0.5)
 
     def check(self, w):
         refs = {}
